@@ -66,7 +66,7 @@ var propertyConfigs = map[string]*propertyConfig{
 			"Mul of two degree-1 ciphertexts without relinearisation: the degree-2 tensor (a0*b0, a0*b1 + a1*b0, a1*b1) out of the Montgomery domain, receiver distinct or equal to either operand.  " +
 			"With a PLAINTEXT operand at equal scales: the plaintext takes part in the first component only (Add / Sub) or multiplies every component (Mul).  MulRelin: the third component of the tensor goes through the gadget product with the key set's relinearisation key (both NAMED), degree 1.  MulThenAdd with a scalar: the accumulator keeps its degree and ends at the common level (finding F44).  A product of operands of total degree 3 is refused.  " +
 			"Rotate / Conjugate: the automorphism of the ciphertext (contract of C04) for the Galois element of the rotation (NAMED uf_galel(k); that it is 5^k is property C11), respectively for the element of order two.  " +
-			"Rescale: on success the receiver has the degree and flags of the input whatever it held, every index is in range (obligation kind index), and an input at level 0 is refused with an error.",
+			"Rescale: on success the receiver has the degree and flags of the input whatever it held, every index is in range (obligation kind index), and an input at level 0 is refused with an error.  RescaleTo (bounded instance, input at level 1; clause safety rows) never asks for a negative level: it stops at level 0 (finding F81).",
 		Assumptions: append(append([]string{}, engineBAssumptions...), "the outcome of comparing two scales is NAMED (cmpval), not interpreted: the contracts cover the branch for equal scales",
 			"the conversion of a scalar to RNS form (bigComplexToRNSScalar), the row operation with a scalar (evaluateWithScalar), Scale.Mul / Div and the rounded divisions are TRUSTED abstract leaves",
 			"NOT decided: everything numerical (approximation error, precision, noise), operands at different scales (integer ratio rescaling), the VALUE of the scale recorded by a product or a rescale, relinearisation, rotations, plaintext and vector operands, programs"),
@@ -76,7 +76,7 @@ var propertyConfigs = map[string]*propertyConfig{
 		ID: "C20", Packages: []string{"./..."}, Level: "proof",
 		Explain: "Per-call structure of the RGSW operations.  rgsw.Evaluator.ExternalProduct, in place and out of place, with no, one and two auxiliary moduli: the two inner products with the gadget rows that were computed (NAMED uf_ep0q/p, uf_ep1q/p: functions of the two components of the input and of the RGSW ciphertext) are the ones handed to the division by P (NAMED uf_moddown), and the quotients are what the receiver holds (finding F45: out of place with two P the Q part came from the receiver's old contents).  " +
 			"BOUNDED instances (one ragged gadget shape, loops unwound; reported under coverage.bounded, never counted as proved): AddLazy (ciphertext operand), MulByXPowAlphaMinusOneLazy, MulByXPowAlphaMinusOneThenAddLazy and Reduce act component by component on both gadget matrices and both bases - 24 ring identities each (\"RGSW ciphertexts add and multiply by X^a - 1 as their plaintexts do\").  " +
-			"rgsw.Encryptor.Encrypt (four domain / Montgomery cases of the plaintext): the plaintext is read, never written (finding F48), and the gadget product is handed a plaintext in NTT and Montgomery form; EncryptZero forwards a receiver that is not an RGSW ciphertext as it is (finding F49).",
+			"rgsw.Encryptor.Encrypt (four domain / Montgomery cases of the plaintext): the plaintext is read, never written (finding F48), and the gadget product is handed a plaintext in NTT and Montgomery form; EncryptZero forwards a receiver that is not an RGSW ciphertext as it is (finding F49).  The product comes back in the DOMAIN of the input: both components are in the domain the input's flag announces, for NTT and coefficient-domain inputs (finding F83; the inner-product leaves and the division by P are stated to produce NTT-domain polynomials).",
 		Assumptions: append(append([]string{}, engineBAssumptions...), "the inner products of the external product (externalProductInPlaceSinglePAndBitDecomp, externalProductInPlaceMultipleP) and the division by P (ModDownQPtoQNTT) are TRUSTED leaves that write their outputs only; what they compute is named, not interpreted (their digit arithmetic is under the contracts of C02)",
 			"NOT decided: that the external product decrypts to m*g, every noise bound, the 32-bit fast path, RGSW encryption, blind rotation (accumulator loop, test polynomial, key generation), plaintext operands of AddLazy"),
 		Trusted:     stdTrusted, Simple: copyAndLanes("C20"),
